@@ -168,3 +168,12 @@ Require Copia.Proofs.TiePushDelete.
 Theorem C09_push_delete_request_is_translation_of_source : TiePushDelete.push_delete_is_translation.
 Proof. exact TiePushDelete.push_delete_is_translation_holds. Qed.
 Print Assumptions C09_push_delete_request_is_translation_of_source.
+
+(** The command a push runs on the remote side is the translation of transfer.rs `transfer_file_to_remote` as the source
+    has it now: `cat > T && [ "$(wc -c < T)" -eq SIZE ] && mv -f T D [&& touch -d @MTIME D]` where every path is the
+    word `$'..'` of Model/ShellQuote.v ([quoted_word]: the two `replace` calls are [escape]) and T is D with the staging
+    suffix (Gen/PushCommandGen.v, Proofs/TiePushCommand.v). *)
+Require Copia.Proofs.TiePushCommand.
+Theorem C09_push_command_is_translation_of_source : TiePushCommand.push_command_is_translation.
+Proof. exact TiePushCommand.push_command_is_translation_holds. Qed.
+Print Assumptions C09_push_command_is_translation_of_source.
